@@ -56,6 +56,7 @@ type MDOp struct {
 }
 
 type Creds struct {
+	SlowUs     int               `json:"slow_us,omitempty"` // free-running engines: GetRequestMetadata takes this long
 	MD         map[string]string `json:"md,omitempty"`
 	RequireTLS bool              `json:"require_tls,omitempty"`
 	Fail       bool              `json:"fail,omitempty"`
@@ -79,6 +80,10 @@ type RPC struct {
 	PeerOpt bool                `json:"peer_opt,omitempty"`
 	ChanOpt bool                `json:"chan_opt,omitempty"`
 	Timeout int64               `json:"timeout_ms,omitempty"` // caller context deadline, virtual ms; 0 = none
+	NoCancelCtx bool            `json:"no_cancel_ctx,omitempty"` // the caller's context can never be cancelled (context.Background() plus values)
+	ReuseMsg  bool              `json:"reuse_msg,omitempty"` // each side receives every message into one re-used message object
+	ChanOpt2  bool              `json:"chan_opt2,omitempty"` // a second WithTunnelChannel option on the same call
+	GrpcTimeoutNoValues bool    `json:"grpc_timeout_no_values,omitempty"` // the grpc-timeout key is present with an empty value list
 	CtxCause  bool              `json:"ctx_cause,omitempty"` // the caller's context is built with WithCancelCause / WithTimeoutCause and ended with an application-defined cause
 	CancelAtReturnUs int        `json:"cancel_at_return_us,omitempty"` // free-running engines: the caller's context is cancelled this many microseconds after the handler decided to return
 	Fuse      string            `json:"fuse,omitempty"` // "h", "c", "both": the handler's / caller's actors run their operations back to back (no quiescence in between)
